@@ -131,3 +131,36 @@ def roundtrip_pool(version, class_name):
     comps = doc["components"]["schemas"]
     return [{"version": version, "class_name": class_name, "src": s} for s in instances(comps[class_name], comps, 0, 60)
             if isinstance(s, dict)]
+
+
+class _FakeResponse:
+    def __init__(self, status_code, content=b"", json_value=None, text=""):
+        self.status_code = status_code
+        self.content = content
+        self.text = text
+        self.headers = {}
+        self._json = json_value
+
+    def json(self):
+        return self._json
+
+
+class _FakeClient:
+    def __init__(self, raise_on_unexpected_status):
+        self.raise_on_unexpected_status = raise_on_unexpected_status
+
+
+def build_response_violation(version, opid, status, raise_flag, content=b"x", entry="_build_response"):
+    """None if an undocumented status behaves as C04 says (no parsed value / UnexpectedStatus when configured to raise)"""
+    pkg, doc = package("endpoints", version)
+    mod = pkg.module(f"api.r.{opid}")
+    try:
+        r = getattr(mod, entry)(client=_FakeClient(raise_flag), response=_FakeResponse(status, content))
+    except BaseException as e:  # noqa
+        if raise_flag and type(e).__name__ == "UnexpectedStatus":
+            return None
+        return f"raised {type(e).__name__}: {e}"
+    if raise_flag:
+        return f"returned {r!r} although raise_on_unexpected_status is set"
+    parsed = r.parsed if entry == "_build_response" else r
+    return None if parsed is None else f"parsed value {parsed!r} for an undocumented status"
